@@ -164,24 +164,24 @@ NOT_APPLICABLE = []
 
 # workload classes added after seeding rounds 5 and 6 (DESIGN 11.5), appended to the level text
 ADDENDA = {
-    'C01': 'Also: searches after the caller edited the sets returned by the geo-level queries; an earlier sibling object differing in one statistical setting built on the same data object.',
-    'C02': 'Also: share ranges placed strictly between the two documented readings of a legal group; panels whose level is 1e7-1e9 times their variation (tolerance of the budget oracle scaled accordingly).',
-    'C03': 'Also: sub-groups failing the share range never license an omission; constructed prune-trap panels; scaled-copy panels whose best designs differ by a few 1e-10 (tie tolerance 1e-11 there); searches after the caller edited earlier results in place.',
-    'C04': 'Also: an independent plain-numpy referee of the four diagnostic tests on every reported design; sig_level < 0.5; hourly tz-aware stamps across a DST change; searches after the caller edited earlier results in place.',
+    'C01': 'Also: Unicode geo ids in decomposed and precomposed spelling; an eligibility table without rows; searches after the caller edited the sets returned by the geo-level queries; an earlier sibling object differing in one statistical setting built on the same data object.',
+    'C02': 'Also: a nearly collinear control / treatment pair with the lower budget bound at twice its budget (each bound compared relative to its own magnitude); share ranges placed strictly between the two documented readings of a legal group; panels whose level is 1e7-1e9 times their variation (tolerance of the budget oracle scaled accordingly).',
+    'C03': 'Also: a larger geo outside the search with the budget bound between neighbouring single-geo budgets; sub-groups failing the share range never license an omission; constructed prune-trap panels; scaled-copy panels whose best designs differ by a few 1e-10 (tie tolerance 1e-11 there); searches after the caller edited earlier results in place.',
+    'C04': 'Also: min_corr placed 2e-8..4e-6 above a returned design\'s correlation; a constant control series must fail the Brownian-bridge test; an independent plain-numpy referee of the four diagnostic tests on every reported design; sig_level < 0.5; hourly tz-aware stamps across a DST change; searches after the caller edited earlier results in place.',
     'C05': 'Also: small-integer Walsh-function series with a correlation of exactly 0.0.',
-    'C06': 'Also: tbrfit after buffer recycling and after the diagnostic tests were read; bare-int period label 0; same frame object edited in place and re-fitted; lagging period label under two row orders; integer / text / date-object date labels; int64 micro-unit metrics.',
+    'C06': 'Also: a bystander geo whose period labels run ahead; tbrfit after buffer recycling and after the diagnostic tests were read; bare-int period label 0; same frame object edited in place and re-fitted; lagging period label under two row orders; integer / text / date-object date labels; int64 micro-unit metrics.',
     'C07': 'Also: treatment spend during cooldown; pre-period spend of geos outside the two groups; extreme opposite units (daily cost totals kept below 1e12).',
     'C08': 'Also: a control series that fits the treatment series exactly.',
     'C09': 'Also: exactly-zero correlations, more than 64 geos in a small exhaustive search, eligibility table covering a subset of the data under a binding n_geos_max.',
     'C10': 'Also: reference = plain fresh build while the object under test may sit on a data object used before by a sibling with another flevel; caller edits of returned sets; an unrelated object on other data used in between; direct constraint queries.',
     'C11': 'Also: listings interleaved with queries of a sibling object on the same data object.',
     'C12': 'Also: upper share bound set bit-for-bit on a library-computed share; day/month/year text labels; twin geos under int vs str IDs (ties only ambiguous under renaming); scale factors 2^-75 .. 2^270.',
-    'C13': 'Also: flat treatment-fixed geo, must-include overflow of n_geos_max, near-twin and low-noise panels compared at the caller\'s own n_designs, searches after caller edits of earlier results.',
+    'C13': 'Also: panels with geos of negative mean under a volume tolerance; flat treatment-fixed geo, must-include overflow of n_geos_max, near-twin and low-noise panels compared at the caller\'s own n_designs, searches after caller edits of earlier results.',
     'C14': 'Also: zero / negative / empty items and numpy-integer capacities.',
     'C15': 'Also: a second live data object over the same geos; a geo without any usable observation; the caller\'s eligibility object compared before / after construction.',
     'C16': 'Also: pairs of mutually incomparable illegal entries; multi-level and foreign named indexes.',
     'C17': 'Also: numpy doubles judged as floats, lists judged as non-tuples, wrong-typed values equal to defaults, far-apart values with equal hashes in the equality clause, a caller subclass.',
-    'C18': 'Also: integer / yyyymmdd / text / date-object date labels and int64 micro-unit metrics.',
+    'C18': 'Also: a test / cooldown date with every value missing; integer / yyyymmdd / text / date-object date labels and int64 micro-unit metrics.',
     'C19': 'Also: third arm reporting longer than the experiment groups, categorical columns, a second metric named as target, missing responses in the test period.',
     'C20': 'Also: years 2-999, re-expansion of sub-lists of already expanded parsed windows, blanks inside a date field.',
 }
